@@ -190,7 +190,10 @@ def build(f, d, S, layout):
     c["site"] = [1, 2]
     da = xr.DataArray(np.stack([np.stack([S, S * 2]), np.stack([S * 0, S]), np.stack([S, S])]), dims=["time", "site", "freq", "dir"], coords=c, name="efth")
     w = xr.DataArray(np.array([[10.0, 5.0], [0.0, 12.0], [25.0, 7.0]]), dims=["time", "site"], coords={"time": t, "site": [1, 2]})
-    return da, dict(wspd=w, wdir=w * 3, dpt=w * 0 + 40.0)
+    # the same coordinates attached in another order: a coords dict written the other way round, a per-site depth broadcast along time
+    wdir = xr.DataArray(w.values * 3, dims=["time", "site"], coords={"site": [1, 2], "time": t})
+    dpt = xr.DataArray(np.array([40.0, 15.0]), dims=["site"], coords={"site": [1, 2]}).broadcast_like(w)
+    return da, dict(wspd=w, wdir=wdir, dpt=dpt)
 
 
 def grid_pred(f, d):
